@@ -30,8 +30,8 @@ func init() {
 // structural (what is ranged, what the body does), not names of functions, so that moving a loop into a
 // helper neither loses the exemption nor lets it cover a different loop.
 var ordExempt = map[string]string{
-	"self-insert:context.newRefs": "inserts into the map it ranges over: inserted entries satisfy path == key and are skipped by the same loop; duplicate inserts are field-wise equal (assumed, not decided)",
-	"cross-entry:context.newRefs": "the callee has cross-entry effects; the parents fix-up at the end of the callee re-points entries that referred to the removed one (assumed, not decided)",
+	"self-insert:tracked-refs": "inserts into the map it ranges over: inserted entries satisfy path == key and are skipped by the same loop; duplicate inserts are field-wise equal (assumed, not decided)",
+	"cross-entry:tracked-refs": "the callee has cross-entry effects; the parents fix-up at the end of the callee re-points entries that referred to the removed one (assumed, not decided)",
 	"group-first:RefRevIdx":       "first ref seen represents its group: members of a group have equal normalised paths and consumers use only the normalised path, the fragment base name and RebaseRef (assumed, not decided)",
 }
 
@@ -63,6 +63,39 @@ func (f *ordFn) rangedField(x ast.Expr) (*types.Var, string) {
 	return nil, ""
 }
 
+// isTrackedRefs: the flattener's index of the definitions it created — by type, not by name: a field of a module
+// struct of type map[string]*S where S is a module struct carrying the created schema (*spec.Schema) and the list
+// of its referers ([]string).
+func isTrackedRefs(fv *types.Var) bool {
+	if fv == nil || fv.Pkg() == nil || fv.Pkg().Path() != core.ModPath {
+		return false
+	}
+	mt, ok := fv.Type().Underlying().(*types.Map)
+	if !ok || !core.IsString(mt.Key()) {
+		return false
+	}
+	pt, ok := mt.Elem().(*types.Pointer)
+	if !ok {
+		return false
+	}
+	pp, _ := core.NamedOf(pt.Elem())
+	st, ok := pt.Elem().Underlying().(*types.Struct)
+	if pp != core.ModPath || !ok {
+		return false
+	}
+	hasSchema, hasList := false, false
+	for i := 0; i < st.NumFields(); i++ {
+		t := st.Field(i).Type()
+		if core.IsPointer(t) && core.IsSpecType(t, "Schema") {
+			hasSchema = true
+		}
+		if sl, ok := t.Underlying().(*types.Slice); ok && core.IsString(sl.Elem()) {
+			hasList = true
+		}
+	}
+	return hasSchema && hasList
+}
+
 // loopRole classifies a loop into one of the frozen exemption roles ("" when none applies).
 func (f *ordFn) loopRole(n ast.Node, body *ast.BlockStmt) string {
 	rs, ok := n.(*ast.RangeStmt)
@@ -70,7 +103,8 @@ func (f *ordFn) loopRole(n ast.Node, body *ast.BlockStmt) string {
 		return ""
 	}
 	c := f.e.c
-	if fv, name := f.rangedField(rs.X); fv != nil && name == "context.newRefs" {
+	if fv, _ := f.rangedField(rs.X); fv != nil && isTrackedRefs(fv) {
+		name := "tracked-refs"
 		self, cross := false, false
 		ast.Inspect(body, func(m ast.Node) bool {
 			switch x := m.(type) {
@@ -985,7 +1019,17 @@ func (f *ordFn) checkSinks() {
 						}
 					}
 					if writes {
-						bad = "passed to " + cf.Obj.Name() + ", which writes the document"
+						// unless the callee does nothing with the slice but range over it with a commutative body
+						// (the loop the caller would otherwise have written in line)
+						idx := -1
+						for i, a := range p.Args {
+							if core.Unparen(a) == x {
+								idx = i
+							}
+						}
+						if idx < 0 || !f.e.paramOnlyRanged(cf, idx, 0) {
+							bad = "passed to " + cf.Obj.Name() + ", which writes the document"
+						}
 					}
 				}
 			}
@@ -1056,6 +1100,9 @@ func (e *ordEngine) totalOrders(reach []*core.FuncInfo) {
 					break
 				}
 				x = core.Unparen(defs[0].Expr)
+				if u, isAddr := x.(*ast.UnaryExpr); isAddr && u.Op == token.AND {
+					x = core.Unparen(u.X) // left := &coll[i]
+				}
 				if sel, isSel := x.(*ast.SelectorExpr); isSel && field == "" {
 					if fv := core.FieldOf(info, sel); fv != nil {
 						field = fv.Name()
@@ -1289,4 +1336,70 @@ func (e *ordEngine) uncoveredKeys(collT types.Type, fields map[string]bool) stri
 		}
 	}
 	return ""
+}
+
+// paramOnlyRanged: the callee uses its slice parameter only as the operand of range loops whose bodies are
+// commutative (decided like any unordered loop), in len(), or as an argument to a function for which the same holds.
+func (e *ordEngine) paramOnlyRanged(cf *core.FuncInfo, idx int, depth int) bool {
+	if depth > 2 || cf.Decl == nil || cf.Decl.Body == nil {
+		return false
+	}
+	po := paramObj(cf, idx)
+	if po == nil {
+		return false
+	}
+	info := e.c.info(cf)
+	pm := e.c.parents(cf)
+	f := &ordFn{e: e, fi: cf, info: info, taintAt: map[types.Object][]token.Pos{}, cleanAt: map[types.Object][]token.Pos{}, ordinal: map[string]int{}}
+	ok := true
+	ast.Inspect(cf.Decl.Body, func(n ast.Node) bool {
+		id, isID := n.(*ast.Ident)
+		if !isID || info.Uses[id] != types.Object(po) {
+			return true
+		}
+		parent := pm[id]
+		for {
+			if pp, isParen := parent.(*ast.ParenExpr); isParen {
+				parent = pm[pp]
+				continue
+			}
+			break
+		}
+		switch x := parent.(type) {
+		case *ast.RangeStmt:
+			if x.X != ast.Expr(id) {
+				ok = false
+				return true
+			}
+			var key, val types.Object
+			if x.Key != nil {
+				key = core.ObjOf(info, x.Key)
+			}
+			if x.Value != nil {
+				val = core.ObjOf(info, x.Value)
+			}
+			if len(f.bodyProblems(x.Body, key, val)) > 0 {
+				ok = false
+			}
+		case *ast.CallExpr:
+			if isBuiltin(info, x, "len") {
+				return true
+			}
+			callee := e.c.P.StaticCallee(cf, x)
+			g := e.c.P.Funcs[callee]
+			j := -1
+			for i, a := range x.Args {
+				if core.Unparen(a) == ast.Expr(id) {
+					j = i
+				}
+			}
+			if g == nil || j < 0 || !e.paramOnlyRanged(g, j, depth+1) {
+				ok = false
+			}
+		default:
+			ok = false
+		}
+		return true
+	})
+	return ok
 }
